@@ -340,10 +340,129 @@ Lemma call_unguarded_panics f g :
   call f g false HDiscover {| a_ok := true; a_body := BJson JNull; a_clen := CLHonest |} "https://op" = CPanic.
 Proof. reflexivity. Qed.
 
+(* ---- layer (e): header values ---- *)
+Lemma has_prefix_length p : forall s, has_prefix p s = true -> String.length p <= String.length s.
+Proof.
+  induction p as [|a p IH]; intros s H; cbn in *; [lia|].
+  destruct s as [|b s]; [discriminate|]. apply andb_true_iff in H as [_ H]. apply IH in H. cbn. lia.
+Qed.
+
+Lemma find_bound sep : forall s i, find sep s = Some i -> i + String.length sep <= String.length s.
+Proof.
+  induction s as [|b s IH]; intros i H; cbn [find] in H.
+  - destruct (has_prefix sep EmptyString) eqn:E; [|discriminate].
+    inversion H; subst. apply has_prefix_length in E. cbn in *. lia.
+  - destruct (has_prefix sep (String b s)) eqn:E.
+    + inversion H; subst. apply has_prefix_length in E. lia.
+    + destruct (find sep s) as [j|] eqn:F; [|discriminate]. inversion H; subst.
+      specialize (IH j eq_refl). cbn. lia.
+Qed.
+
+Lemma get_access_token_total lower h : get_access_token lower false h <> Panic.
+Proof.
+  unfold get_access_token. destruct (String.eqb h ""); [discriminate|].
+  destruct (split "Bearer " h) as [|x [|y [|z l]]]; discriminate.
+Qed.
+
+(* the case-insensitive variant is safe exactly under the assumption it silently makes *)
+Lemma get_access_token_ci_safe lower h :
+  (forall s, String.length (lower s) = String.length s) -> get_access_token lower true h <> Panic.
+Proof.
+  intro L. unfold get_access_token. destruct (String.eqb h ""); [discriminate|].
+  destruct (count "bearer " (lower h) =? 1); [|discriminate].
+  destruct (find "bearer " (lower h)) as [i|] eqn:F; [|discriminate].
+  apply find_bound in F. rewrite L in F. cbn [String.length] in F. unfold slice_from.
+  destruct (i + 7 <=? String.length h) eqn:E; [discriminate|].
+  apply Nat.leb_gt in E. lia.
+Qed.
+
+Lemma has_prefix_split p : forall s, has_prefix p s = true -> s = String.append p (drop (String.length p) s).
+Proof.
+  induction p as [|a p IH]; intros s H; cbn in *; [reflexivity|].
+  destruct s as [|b s]; [discriminate|]. apply andb_true_iff in H as [E H].
+  apply Ascii.eqb_eq in E. subst b. cbn. f_equal. now apply IH.
+Qed.
+
+Lemma find_split sep : forall s i, find sep s = Some i ->
+  s = String.append (take i s) (String.append sep (drop (i + String.length sep) s)).
+Proof.
+  induction s as [|b s IH]; intros i H; cbn [find] in H.
+  - destruct (has_prefix sep EmptyString) eqn:E; [|discriminate]. inversion H; subst. cbn [take String.append plus].
+    now apply has_prefix_split.
+  - destruct (has_prefix sep (String b s)) eqn:E.
+    + inversion H; subst. cbn [take String.append plus]. now apply has_prefix_split.
+    + destruct (find sep s) as [j|] eqn:F; [|discriminate]. inversion H; subst.
+      cbn [take String.append plus drop]. f_equal. now apply IH.
+Qed.
+
+Lemma split_fuel_nonempty f sep s : split_fuel f sep s <> [].
+Proof. destruct f; cbn; [discriminate|]. destruct (find sep s); discriminate. Qed.
+
+Lemma split_two f sep s a t : split_fuel f sep s = [a; t] ->
+  exists i, find sep s = Some i /\ a = take i s /\ t = drop (i + String.length sep) s.
+Proof.
+  destruct f as [|f]; cbn; [discriminate|].
+  destruct (find sep s) as [i|] eqn:F; [|discriminate].
+  intro H. inversion H as [[Ha Hr]]. exists i. split; [reflexivity|]. split; [reflexivity|].
+  destruct f as [|f]; cbn in Hr; [now inversion Hr|].
+  destruct (find sep (drop (i + String.length sep) s)) as [j|]; [|now inversion Hr].
+  inversion Hr as [[H1 H2]]. now elim (split_fuel_nonempty f sep (drop (j + String.length sep) (drop (i + String.length sep) s))).
+Qed.
+
+(* the token handed on is what follows the scheme in the header: header = before ++ "Bearer " ++ token *)
+Lemma get_access_token_suffix lower h t :
+  get_access_token lower false h = Ok t -> exists before, h = String.append before (String.append "Bearer " t).
+Proof.
+  unfold get_access_token. destruct (String.eqb h ""); [discriminate|].
+  destruct (split "Bearer " h) as [|a [|t' [|z l]]] eqn:S; try discriminate.
+  intro H. inversion H; subst t'. unfold split in S. apply split_two in S as (i & F & _ & Ht).
+  exists (take i h). rewrite Ht. now apply find_split.
+Qed.
+
+Definition ff := ascii_of_nat 255.
+Definition bearer_ci_witness : string := String ff (String ff (String ff (String ff " Bearer abc"))).
+
+Lemma get_access_token_ci_panics : get_access_token lower_ff true bearer_ci_witness = Panic.
+Proof. vm_compute. reflexivity. Qed.
+
+Lemma bearer_userinfo_single lower ok h : single (bearer_userinfo lower ok false h) = true.
+Proof.
+  unfold bearer_userinfo. pose proof (get_access_token_total lower h) as H.
+  destruct (get_access_token lower false h) as [t| |]; [|reflexivity|now elim H].
+  destruct (ok t); reflexivity.
+Qed.
+
+Lemma bearer_userinfo_ci_panics ok : bearer_userinfo lower_ff ok true bearer_ci_witness = OPanic.
+Proof. unfold bearer_userinfo. now rewrite get_access_token_ci_panics. Qed.
+
+(* ---- layer (c'): client authentication by assertion ---- *)
+Lemma ahandler_single a : single (ahandler all_return a) = true.
+Proof. destruct a as [e ep p t k b]. destruct e, ep, p, t, k, b; reflexivity. Qed.
+
+(* the first failing check of every authentication routine returns: nothing after it runs *)
+Lemma verify_assertion_stops s a st c pre post :
+  verifies a = false -> forallb passes pre = true ->
+  run (pre ++ verify_assertion all_return s a st c ++ post) = OResp st c.
+Proof.
+  intros V P. unfold verify_assertion. rewrite V. cbn [app all_return]. now apply run_stops.
+Qed.
+
+(* each of the three returns is needed: drop one and some generated request panics *)
+Lemma every_assertion_return_needed s : exists a, ashape_wf a = true /\ ahandler (all_but s) a = OPanic.
+Proof.
+  destruct s.
+  - exists {| au_entry := ViaLegacy; au_ep := ERefresh; au_pkjwt := true; au_type := ATJwt; au_assert := AKeyFail; au_basic := true |}.
+    split; reflexivity.
+  - exists {| au_entry := ViaProvider; au_ep := EIntrospect; au_pkjwt := false; au_type := ATAbsent; au_assert := APreFail; au_basic := false |}.
+    split; reflexivity.
+  - exists {| au_entry := ViaProvider; au_ep := ERevoke; au_pkjwt := true; au_type := ATJwt; au_assert := APreFail; au_basic := false |}.
+    split; reflexivity.
+Qed.
+
 (* ---- central theorem ---- *)
 Lemma spec_model i : spec i (model i) = true.
 Proof.
-  destruct i as [d m j t|k tok t|s|x|hc he hh|cx|e c q|h a e t|dev tok t|o|n amount dash]; cbn.
+  destruct i as [d m j t|k tok t|s|x|hc he hh|cx|be bh bo|au|e c q|h a e t|dev tok t|o|n amount dash]; cbn.
   - pose proof (decode_total t d j) as H. destruct (decode t d j); try reflexivity. now elim H.
   - pose proof (verify_total (time_of t) (lang_of t) k tok) as H.
     destruct (verify _ _ true true k tok); try reflexivity. now elim H.
@@ -351,6 +470,8 @@ Proof.
   - apply xhandler_single.
   - pose proof (hint_caller_total hc hh) as H. destruct (hint_caller true hc hh); try reflexivity; now elim H.
   - apply chandler_single.
+  - apply bearer_userinfo_single.
+  - apply ahandler_single.
   - reflexivity.
   - pose proof (call_total (time_of t) (lang_of t) h a e) as H.
     pose proof (call_ok_well_formed (time_of t) (lang_of t) h a e) as W.
@@ -466,3 +587,23 @@ Lemma presize_refuted :
   forall (rfc3339_ok : string -> bool) (lang_class : string -> nat),
     exists h a, http_request_from rfc3339_ok lang_class true true h a = Panic.
 Proof. intros f g. do 2 eexists. apply presize_panics. Qed.
+
+Lemma bearer_total :
+  forall (lower : string -> string) (token_ok : string -> bool) (h : string),
+    get_access_token lower false h <> Panic /\
+    match bearer_userinfo lower token_ok false h with OResp _ _ | OGrant => True | _ => False end.
+Proof.
+  intros lower ok h. split; [apply get_access_token_total|].
+  unfold bearer_userinfo. pose proof (get_access_token_total lower h) as H.
+  destruct (get_access_token lower false h) as [t| |]; [|exact I|now elim H].
+  destruct (ok t); exact I.
+Qed.
+
+Lemma bearer_ci_refuted : exists h, get_access_token lower_ff true h = Panic.
+Proof. eexists. exact get_access_token_ci_panics. Qed.
+
+Lemma client_auth_total :
+  forall a : ashape, match ahandler all_return a with OResp _ _ | OGrant => True | _ => False end.
+Proof.
+  intro a. destruct a as [e ep p t k b]. destruct e, ep, p, t, k, b; exact I.
+Qed.
